@@ -224,7 +224,7 @@ class Atoms:
 
 
         self.atom_type_masses = np.array(atom_type_masses, ndmin=1)
-        self.positions = np.array(positions, dtype=float, ndmin=1)
+        self.positions = np.array(positions, dtype=float, ndmin=1).reshape(-1, 3)
 
         if cell is not None:
             self.cell = np.array(cell)
